@@ -38,6 +38,8 @@ pub fn play_game_uci() {
     let zobrist_hasher = ZobristHasher::create_zobrist_hasher();
     let mut draw_table = DrawTable::new();
     loop {
+        #[cfg(walleye_verif)]
+        crate::verif::trace_state(&board, &draw_table);
         let buffer = read_from_gui();
         let start = Instant::now();
         let commands: Vec<&str> = buffer.split(' ').collect();
